@@ -394,6 +394,49 @@ def project(S):
     return {"target": t, "tmp": tmp}
 
 
+def compile_case(ctx, rng):
+    """ffi.compile() writes the same C text as emit_c_code() and leaves it untouched the second time"""
+    import cffi
+    d = gen_names.Decls(rng, gen_names.ident_set(rng, 8, dollar=False))
+    out = os.path.join(ctx.tmp, "compile_case")
+    os.makedirs(out)
+    digests, mtimes = [], []
+    for rep in (1, 2):
+        ffi = cffi.FFI()
+        with warnings.catch_warnings():
+            warnings.simplefilter("ignore")
+            ffi.cdef(d.cdef)
+        ffi.set_source("zcompiled", d.csource)
+        try:
+            with contextlib.redirect_stdout(io.StringIO()):
+                ffi.compile(tmpdir=out, verbose=0)
+        except Exception as e:
+            raise core.MachineryError("ffi.compile() failed: %r" % (e,))
+        p = os.path.join(out, "zcompiled.c")
+        with open(p, "rb") as f:
+            digests.append(hashlib.sha256(f.read()).hexdigest())
+        mtimes.append((os.stat(p).st_mtime_ns, os.stat(p).st_ino))
+        if rep == 1:
+            os.utime(p, ns=(10 ** 18, 10 ** 18))
+            mtimes[0] = (os.stat(p).st_mtime_ns, os.stat(p).st_ino)
+    ffi = cffi.FFI()
+    with warnings.catch_warnings():
+        warnings.simplefilter("ignore")
+        ffi.cdef(d.cdef)
+    ffi.set_source("zcompiled", d.csource)
+    f = io.StringIO()
+    with contextlib.redirect_stdout(io.StringIO()):
+        ffi.emit_c_code(f)
+    ref = hashlib.sha256(f.getvalue().encode("utf-8")).hexdigest()
+    ctx.case(("compile",), n=2)
+    rp = {"kind": "determinism", "input": {"id": "compile", "cdef": d.cdef, "modname": "zcompiled", "preamble": d.csource}}
+    if digests != [ref, ref]:
+        ctx.violation("determinism:compile", "ffi.compile() wrote a C text different from emit_c_code()", rp)
+    if mtimes[0] != mtimes[1]:
+        ctx.violation("untouched:compile", "the second ffi.compile() rewrote an identical C file (mtime/inode changed)", rp)
+    ctx.validated(2)
+
+
 def run(ctx):
     quick = ctx.quick
     pool = ThreadPoolExecutor(8)
@@ -599,6 +642,9 @@ def run(ctx):
                         data = fh.getvalue().encode("utf-8")
                 obs[inp["id"]].append({"seed": "inproc", "rep": rep, "sink": sink,
                                        "digest": hashlib.sha256(data).hexdigest()})
+    # ---------------------------------------------------------------- ffi.compile(): same text, idempotent (thorough)
+    if not quick:
+        compile_case(ctx, rng)
     # ---------------------------------------------------------------- collect TLC design-level results
     for name, kind, f in futs:
         r = f.result()
